@@ -102,6 +102,29 @@ PROPS = {
         "expected_probes": ["empty_shards", "rows_fewer_than_shards", "malicious_runs", "honest_helper_returned_error"],
         "components_real": ["protocol::ipa_prf::shuffle::{sharded, malicious}, report::hybrid Shuffleable impls, cross-shard reshard, PRSS, Gateway, in-memory MPC+shard transports (TestWorld<WithShards<S>>)"],
     },
+    "C10": {
+        "level": "fault_enumeration",
+        "rule": "run = 1..6 seeded impression/conversion reports (site-domain lengths {0,1,2,20,100,255} incl. non-printable ASCII and NUL, extreme timestamps, NaN/inf/subnormal floats, 3 key ids) encrypted with real HPKE; "
+                "then for one sample record EVERY single-bit flip at EVERY byte offset and EVERY truncation length are decrypted, plus garbage/zero/all-ones records of many lengths, a different key pair and an empty registry; "
+                "finally the length-delimited body is parsed through seeded chunkings (with Pending) intact and damaged (zero-length record, torn tail, flipped length prefix, random bit flips, short record); "
+                "non-trivial always; distinct by (record mix, sample kind) - mutations executed are reported in probes.mutations",
+        "scenarios": [
+            {"name": "c10_reports", "quick": 3000, "thorough": 150000, "offset": 1, "chunk": 100},
+        ],
+        "expected_probes": ["mutations", "rejected", "bitflips_exhaustive_bytes", "nul_domain_rejected_at_construction"],
+        "components_real": ["report::{hybrid, hybrid_info}, hpke::{open_in_place, seal_in_place, KeyRegistry}, helpers::transport::stream::input::LengthDelimitedStream, helpers::stream::TryFlattenItersExt"],
+        "components_stubbed": ["request body -> harness plan stream (seeded chunks, Pending)"],
+    },
+    "C11": {
+        "level": "exploration",
+        "rule": "run = the real Query::execute on 3 helpers x {1,2,3,5} shards with 2..40 distinct encrypted reports (every shard non-empty) and 0..3 duplicate copies inserted at seeded positions into seeded shards' inputs of "
+                "a seeded subset of helpers; cut off once every node has returned or sent its first message after the tag exchange; non-trivial iff >=1 multi-choice decision; distinct by (shape, schedule digest)",
+        "scenarios": [
+            {"name": "c11_dups", "quick": 1500, "thorough": 60000, "offset": 1, "chunk": 25, "run_timeout": 300},
+        ],
+        "expected_probes": ["duplicate_runs", "distinct_runs", "copies_in_other_shard_input", "outcome_cutoff"],
+        "components_real": ["query::runner::hybrid::Query::execute (decrypt, reshard_aad by tag, UniqueTagValidator), report::hybrid::UniqueTag, Gateway shard channels, in-memory transports"],
+    },
     "C13": {
         "level": "exploration",
         "rule": "run = seeded world (3 helpers, optionally x3 shards), 1-5 logical channels (helper and shard channels, shared and distinct steps, "
@@ -187,6 +210,18 @@ NOT_APPLICABLE = {
 }
 
 MANIFEST_TEXT = {
+    "C10": {
+        "text": "Fault enumeration at the client-input seam of a helper: honest reports must decrypt to exactly the original shares and metadata (and not under another key); every single-bit flip at every offset and every truncation of a sample record, garbage records and damaged framing must yield an error value - never Ok, never a panic. Per sample record the bit-flip and truncation spaces are enumerated completely; records and chunkings are seeded samples. Two genuine defects found by this check were repaired in /repo (fix: commits 1360967, 4e986b5) and are listed as fixed in known_findings.json.",
+        "design_ref": "DESIGN.md section 4, C10 and section 7",
+        "note": "AES-GCM/HPKE forgery probability assumed negligible; only helper 1's share of each report is encrypted/decrypted (the three shares go through identical code)",
+        "technique": "deterministic simulation of the input-stream seam: exhaustive per-record bit-flip/truncation injection + seeded chunking, exact round-trip oracle",
+    },
+    "C11": {
+        "text": "Seeded exploration of the real query entry point on 3 helpers x S shards with real encryption and real reshard-by-tag under a controlled scheduler: for every helper that received duplicated copies, exactly the shards tag mod S (tag recomputed independently from the ciphertext bytes) return the duplicate error, and they had sent no message of a later step; helpers/shards without duplicates never report one; all-distinct inputs are never rejected. Runs are cut off after the duplicate check. Sampling, not proof.",
+        "design_ref": "DESIGN.md section 4, C11",
+        "note": "after a duplicate on a subset of helpers the helpers' inputs are inconsistent, so other failures of that run are not judged; every shard gets at least one report (a query size of zero cannot be expressed)",
+        "technique": "deterministic simulation: seeded schedule + duplicate-placement search over the real query entry point, with scheduler cut-off (crash-at-point)",
+    },
     "C01": {
         "text": "Seeded exploration of the real hybrid_protocol (all stages) on 3 helpers x {1,2,3,5} shards under a controlled scheduler, semi-honest and malicious, with and without dummy padding, with reports generated from a grammar that forces the statement's corner classes and arbitrary shard assignment. Oracle: an independent implementation of the statement's plaintext rule (pairs only, wrap at value/key width, saturate at the output width), compared with the reconstruction of the three helpers' leader-shard output; all helpers must return Ok and hold consistent sharings. Three genuine defects (hang / ZeroRecords error when a shard has nothing to process at some stage) are listed in known_findings.json and reported as KNOWN-FINDING lines. Sampling, not proof.",
         "design_ref": "DESIGN.md section 4, C01 and section 7",
